@@ -602,7 +602,9 @@ def check_inmem(i, ctx):
     judge_write(m, lib_den(m), dict(route="constructor", devs=[]), case, ctx)
 
 
-ROUTES = ["OsuToQua", "BMSToQua", "SMToQua", "O2JToQua", "OsuToQua/rate", "read/default-meta", "write/edit/write"]
+ROUTES = ["OsuToQua", "BMSToQua", "SMToQua", "O2JToQua", "OsuToQua/rate", "read/default-meta", "write/edit/write",
+          # lists with non-default row labels (after a filter / a reverse sort) whose notes differ in their key sounds
+          "constructor/gaps", "constructor/unsorted", "constructor/unsorted/sorted"]
 
 
 def check_route(route, ctx):
@@ -627,6 +629,11 @@ def check_route(route, ctx):
             m.write()
             edit(m)
             edit(twin)
+        elif route.startswith("constructor/"):
+            m = starts.make("qua", route.split("/")[1])
+            m.initial_scroll_velocity = 1.0
+            if route.endswith("/sorted"):
+                m.hits, m.holds = m.hits.sorted(), m.holds.sorted()
         elif route == "OsuToQua":
             m = C.OsuToQua.convert(starts.make("osu", "plain"))
         elif route == "OsuToQua/rate":
